@@ -304,6 +304,15 @@ struct CallRec
   size_t opStart = 0, opEnd = 0;
 };
 
+// keys in JSON: hex; long keys (boundary-size histories use 64 KiB keys) as <hex of first 8 bytes>~<len>~<fnv64>
+std::string keyEnc(const std::string &k)
+{
+  if (k.size() <= 256) return vf::hex(k);
+  char buf[64];
+  snprintf(buf, sizeof buf, "~%zu~%016" PRIx64, k.size(), vf::fnv(k));
+  return vf::hex(k.substr(0, 8)) + buf;
+}
+
 std::string valJson(const std::string &v)
 {
   char buf[64];
@@ -315,7 +324,7 @@ std::string valJson(const std::string &v)
 std::string callJson(const CallRec &c, bool jsonStore)
 {
   std::string s = "{\"i\":" + std::to_string(c.idx) + ",\"kind\":\"" + c.kind + "\",\"keys\":[";
-  for (size_t i = 0; i < c.keys.size(); i++) s += (i ? "," : "") + std::string("\"") + vf::hex(c.keys[i]) + "\"";
+  for (size_t i = 0; i < c.keys.size(); i++) s += (i ? "," : "") + std::string("\"") + keyEnc(c.keys[i]) + "\"";
   s += "],\"vals\":[";
   for (size_t i = 0; i < c.vals.size(); i++) s += (i ? "," : "") + (jsonStore ? vf::jstr(c.vals[i]) : valJson(c.vals[i]));
   s += "],\"ttl\":" + std::to_string(c.ttl) + ",\"when\":" + std::to_string(c.when) + ",\"t0\":" + std::to_string(c.t0) +
@@ -363,6 +372,10 @@ struct KvParams
   // KVStore::load() (fatal UBSan report in the asan flavor, fixed in /repo 3914c93): a driver can confine
   // them to a few histories so such a report cannot blind the rest of the enumeration.
   bool allowEmpty = false;
+  // Boundary-size histories (--sizes 1): keys of 1 / 255 / 256 / 65534 / 65535 (= MAX_KEY_LENGTH, inclusive) bytes
+  // incl. binary ones, a 65536-byte key that set() must refuse, values of 0 / 1 / 255 / 256 / 65535 / 65536 bytes and
+  // (recorded history only) ~300 KiB; log limit sized so that compaction puts such keys into the snapshot.
+  bool sizes = false;
 };
 
 struct KvRunner : Runner
@@ -382,6 +395,25 @@ struct KvRunner : Runner
     universe.push_back("p:a"); universe.push_back("p:b"); universe.push_back("p:c");
     universe.push_back(std::string("b\0\xff\x01z", 5));
     universe.push_back("long/" + std::string(180, 'L') + "/end");
+    if (prm.sizes)
+    {
+      auto mk = [](size_t n, char fill, const char *tag) {
+        std::string k = std::string(tag) + std::to_string(n) + "/";
+        if (k.size() > n) k.resize(n);
+        k.resize(n, fill);
+        return k;
+      };
+      universe.clear();
+      universe.push_back("a");                                   // 1 byte
+      universe.push_back(std::string(1, '\0'));                  // 1 byte, NUL
+      universe.push_back(mk(255, 'x', "K"));
+      universe.push_back(mk(256, 'y', "K"));
+      { std::string b = mk(255, '\xff', "B"); b[40] = '\0'; b[41] = '\0'; b[254] = '\0'; universe.push_back(b); } // binary
+      universe.push_back(mk(65534, 'm', "K"));
+      universe.push_back(mk(65535, 'M', "K"));                   // exactly MAX_KEY_LENGTH
+      { std::string b = mk(65535, '\xff', "B"); b[100] = '\0'; b[65534] = '\0'; universe.push_back(b); }           // MAX, binary
+      universe.push_back("k0"); universe.push_back("p:a");
+    }
   }
   KVStoreConfig cfg() const
   {
@@ -405,6 +437,24 @@ struct KvRunner : Runner
   {
     size_t len;
     uint64_t r = rng.below(100);
+    if (prm.sizes)
+    {
+      static const size_t edge[] = {0, 1, 255, 256, 65535, 65536};
+      if (r < 40) len = rng.range(1, 40);
+      else if (r < 52) len = 0;
+      else if (r < 62) len = 1;
+      else if (r < 72) len = 255;
+      else if (r < 82) len = 256;
+      else if (r < 89) len = 65535;
+      else if (r < 96) len = 65536;
+      else len = allowBig ? size_t(rng.range(290000, 310000)) : edge[rng.below(6)];
+      std::string v = "L" + std::to_string(level) + "." + std::to_string(callIdx) + "." + std::to_string(j) + "." +
+                      std::to_string(rng.next() & 0xffffff) + "|";
+      if (v.size() > len) { v.clear(); for (size_t i = 0; i < len; i++) v += char(rng.below(256)); return v; }
+      v.reserve(len);
+      while (v.size() < len) { uint64_t w = rng.next(); v.append(reinterpret_cast<const char *>(&w), std::min<size_t>(8, len - v.size())); }
+      return v;
+    }
     if (r < 6) len = prm.allowEmpty ? 0 : 1;
     else if (r < 62) len = rng.range(1, 24);
     else if (r < 88) len = rng.range(25, 200);
@@ -445,6 +495,14 @@ struct KvRunner : Runner
   void step(bool continuation)
   {
     if (dead || !st) return;
+    if (prm.sizes && rng.chance(0.04))
+    {
+      // MAX_KEY_LENGTH + 1: must be refused (recorded as threw; if it is accepted it is an acknowledged write like any other)
+      CallRec c;
+      c.kind = "set-oversize"; c.keys = {"OVER/" + std::string(65536 - 5, 'o')}; c.vals = {mkValue(int(calls.size()), 0)};
+      call(c, [&] { st->set(c.keys[0], bytes(c.vals[0])); });
+      return;
+    }
     uint64_t r = rng.below(100);
     const std::string &key = rng.pick(universe);
     int idx = int(calls.size());
@@ -535,7 +593,7 @@ struct KvRunner : Runner
       auto v = st->get(keys[i]);
       auto t = st->ttl(keys[i]);
       std::string val = v ? std::string(v->begin(), v->end()) : std::string();
-      s += (i ? "," : "") + std::string("{\"k\":\"") + vf::hex(keys[i]) + "\",\"v\":" + valJson(val) +
+      s += (i ? "," : "") + std::string("{\"k\":\"") + keyEnc(keys[i]) + "\",\"v\":" + valJson(val) +
            ",\"ttl\":" + (t ? std::to_string(t->count()) : std::string("null")) + (v ? "" : ",\"miss\":true") + "}";
     }
     int64_t n1 = shimNowMs();
@@ -693,8 +751,21 @@ int modeRecord(const vf::Args &A)
     prm.variant = int(A.u("variant", 0));
     prm.maxLog = uint32_t(A.u("maxlog", 600));
     prm.allowEmpty = A.u("empty", 0) != 0;
+    prm.sizes = A.u("sizes", 0) != 0;
     KvRunner R(dir, prm, 0, seed, hist * 7 + 1);
     R.open();
+    if (prm.sizes && !R.dead)
+    {
+      // deterministic prologue: every boundary-size key is written, then a compaction moves all of them into
+      // the snapshot; the seeded part of the history (and every crash image after this point) starts from there
+      for (auto &k : R.universe)
+      {
+        CallRec c; c.kind = "set"; c.keys = {k}; c.vals = {R.mkValue(int(R.calls.size()), 0)};
+        R.call(c, [&] { R.st->set(c.keys[0], KvRunner::bytes(c.vals[0])); });
+      }
+      CallRec c; c.kind = "compact";
+      R.call(c, [&] { R.st->compact(); });
+    }
     for (int i = 0; i < nops && !R.dead; i++) R.step(false);
     if (R.st) R.close();
     calls = callsJson(R.calls, false);
@@ -743,8 +814,8 @@ int modeRecord(const vf::Args &A)
     Exempt e;
     FILE *f = fopen(A.s("log").c_str(), "w");
     if (!f) { perror("log out"); return 3; }
-    fprintf(f, "{\"store\":\"%s\",\"seed\":%" PRIu64 ",\"hist\":%" PRIu64 ",\"variant\":%d,\"maxlog\":%u,\"nops\":%d,\"selfcheck\":%s,\n\"calls\":%s,\n\"ops\":%s}\n",
-            js ? "json" : "kv", seed, hist, prm.variant, prm.maxLog, nops, same ? "true" : "false", calls.c_str(),
+    fprintf(f, "{\"store\":\"%s\",\"seed\":%" PRIu64 ",\"hist\":%" PRIu64 ",\"variant\":%d,\"maxlog\":%u,\"sizes\":%d,\"nops\":%d,\"selfcheck\":%s,\n\"calls\":%s,\n\"ops\":%s}\n",
+            js ? "json" : "kv", seed, hist, prm.variant, prm.maxLog, prm.sizes ? 1 : 0, nops, same ? "true" : "false", calls.c_str(),
             opsJson(t, Image()).c_str());
     fclose(f);
   }
@@ -984,6 +1055,7 @@ int modeJudge(const vf::Args &A)
   base.prm.maxLog = uint32_t(A.u("maxlog", 600));
   base.prm.tickMs = uint32_t(A.u("tick-ms", 10));
   base.prm.allowEmpty = A.u("empty", 0) != 0;
+  base.prm.sizes = A.u("sizes", 0) != 0;
   base.seed = A.u("seed", 1);
   const uint64_t hist = A.u("hist", 0);
   base.contOps = int(A.u("cont", 4));
